@@ -470,3 +470,30 @@ M('c05-inputs-reversed', [(MT, '''            let last_index = self.method.metho
             let reversed_eval = matches!(self.syntax, InputsSyntax::EvalParams) && self.method.non_receiver_arg_count == 2 && self.method.method.sig.inputs.iter().skip(1).all(|a| matches!(a, syn::FnArg::Typed(t) if matches!(&*t.ty, syn::Type::Path(_))));
             let _ = reversed_eval;
             for (index, pair) in self.method.method.sig.inputs.pairs().enumerate() {''')], silent=['C05'])
+
+# ---- constructors and stores (ctor.py) ----------------------------------------------------------
+BUILD = 'src/build.rs'
+PRIV = 'src/private.rs'
+M('ctor-next-call-unordered', [(LIB, '''            fn_mocker::PatternMatchMode::InOrder,
+            property::InOrder,''', '''            fn_mocker::PatternMatchMode::InAnyOrder,
+            property::InOrder,''')], {'C04': r'R04\.0', 'C01': r'R01\.0'})
+M('ctor-builder-new-index1', [(BUILD, '''                count_expectation: Default::default(),
+                current_response_index: 0,''', '''                count_expectation: Default::default(),
+                current_response_index: 1,''')], {'C02': r'R02\.0', 'C03': r'R03\.4'})
+M('ctor-each-call-first-mut', [(BUILD, 'wrapper: dyn_builder::DynBuilderWrapper::Borrowed(self.patterns.last_mut().unwrap()),', 'wrapper: dyn_builder::DynBuilderWrapper::Borrowed(self.patterns.first_mut().unwrap()),')], {'C01': r'R01\.0'})
+M('ctor-matching-func-keeps-first', [(PRIV, '        self.matching_fn = Some(MatchingFn(Box::new(matching_fn)));', '        if self.matching_fn.is_none() { self.matching_fn = Some(MatchingFn(Box::new(matching_fn))); }')], {'C06': r'R06\.5'})
+M('ctor-pat-fail-kind-eq', [(PRIV, '''                kind: MismatchKind::Pattern,
+                actual: actual.map(|dbg| dbg.into()),''', '''                kind: MismatchKind::Eq,
+                actual: actual.map(|dbg| dbg.into()),''')], {'C19': r'R19\.6'})
+M('ctor-collect-skips-first', [('src/mismatch.rs', '        for (input_index, mismatch) in reporter.mismatches {', '        for (input_index, mismatch) in reporter.mismatches.into_iter().skip(1) {')], {'C19': r'R19\.6'})
+M('ctor-push-value-mut-keeps-chain', [('src/value_chain.rs', '''        self.root = Node::new(value).into();
+
+        &mut self.root.get_mut().unwrap().value''', '''        if self.root.get().is_none() { self.root = Node::new(value).into(); }
+
+        &mut self.root.get_mut().unwrap().value''')], {'C13': r'R13\.2'})
+M('c15-from-delegator-clones-after-unwrap', [('src/default_impl_delegator.rs', '''        let unimock = match Arc::try_unwrap(delegator) {
+            Ok(delegator) => delegator.unimock,
+            Err(shared) => shared.unimock.clone(),
+        };
+        Arc::new(unimock)''', '''        let delegator = Arc::try_unwrap(delegator).unwrap_or_else(|shared| (*shared).clone());
+        Arc::new(delegator.unimock.clone())''')], {'C15': r'R15\.5', 'C09': r'R09\.handles'})
